@@ -331,6 +331,9 @@ func (pf Profile) Gen(t *rapid.T) Scenario {
 		sc.Timeout5s = true
 	}
 	sc.SwapTypes = pct(t, 25, "swapTypes")
+	if pct(t, 15, "recoverAfter") {
+		sc.RecoverPermille = rng(t, 1, 1000, "recoverPermille")
+	}
 	if pct(t, 4, "unusualPlanName") {
 		sc.NameKind = rng(t, 1, len(planNames)-1, "nameKind")
 	}
@@ -404,8 +407,14 @@ func GenAPIHistory(t *rapid.T) APIHistory {
 			op.Kind, op.Arg = OpSubmitInvalid, uniform(t, 9, "invalidKind")
 		case 2:
 			op.Kind = OpStart
+			if pct(t, 30, "cancelStart") {
+				op.CancelUs = pick(t, []int{1, 100, 700, 2500}, "cancelStartUs")
+			}
 		case 3:
 			op.Kind, op.N, op.DelayUs = OpStartRace, rng(t, 2, 8, "raceN"), pick(t, []int{0, 0, 20, 100, 500, 2000}, "raceDelay")
+			if pct(t, 20, "cancelRace") {
+				op.CancelUs = pick(t, []int{1, 100, 700, 2500}, "cancelRaceUs")
+			}
 		case 4:
 			op.Kind, op.Arg = OpWait, pick(t, []int{0, 0, 1, 5}, "waitMs")
 		case 5:
